@@ -4,6 +4,7 @@ package main
 
 import (
 	"context"
+	"fmt"
 	"math"
 	"sort"
 	"strconv"
@@ -257,6 +258,48 @@ func init() {
 					run[k] = v
 				}
 			}
+			runs = append(runs, run)
+		}
+		return map[string]any{"runs": runs}, nil
+	}
+
+	// evalmulti: several (query, capability set, params) evaluations over one record set
+	handlers["evalmulti"] = func(req request) (map[string]any, error) {
+		type ev struct {
+			Query string `json:"query"`
+			Label []int  `json:"label"`
+			Line  []int  `json:"line"`
+			Limit int    `json:"limit"`
+			Start int64  `json:"start"`
+			End   int64  `json:"end"`
+			Step  int64  `json:"step"`
+		}
+		evs := get[[]ev](req, "evals")
+		recs := get[[]mockRecord](req, "records")
+		var runs []map[string]any
+		for _, e := range evs {
+			q := &mockQuerier{recs: recs, caps: capsOf(e.Label, e.Line), failAt: get[int](req, "fail_at"), noWindow: get[bool](req, "no_window")}
+			eng := logqlengine.NewEngine(q, logqlengine.Options{})
+			run := map[string]any{}
+			func() {
+				defer func() {
+					if r := recover(); r != nil {
+						run["panic"] = fmt.Sprint(r)
+					}
+				}()
+				data, err := eng.Eval(context.Background(), unb64(e.Query), logqlengine.EvalParams{
+					Start: otelstorage.Timestamp(e.Start), End: otelstorage.Timestamp(e.End), Step: time.Duration(e.Step), Limit: e.Limit})
+				if err != nil {
+					run["error"] = err.Error()
+					run["class"] = errClass(err)
+				} else {
+					for k, v := range dumpData(data) {
+						run[k] = v
+					}
+				}
+			}()
+			run["opened"] = q.opened
+			run["closed"] = q.closed
 			runs = append(runs, run)
 		}
 		return map[string]any{"runs": runs}, nil
